@@ -38,7 +38,16 @@ from fnmatch import fnmatch
 from typing import TYPE_CHECKING
 
 from .file import ensure_dir_exists
-from .index import Index, IndexEntry
+from .index import (
+    Index,
+    IndexEntry,
+    InvalidPathError,
+    _lstat_tracked_path,
+    build_file_from_blob,
+    get_path_element_validator,
+    validate_path,
+    verify_leading_dirs,
+)
 from .objects import Blob
 from .repo import Repo
 
@@ -175,6 +184,11 @@ def apply_included_paths(
 
     Returns:
       None
+
+    Raises:
+      InvalidPathError: If a path that has to be materialized is unsafe
+        (``..``, ``.git`` and the like) or lies below a symlink in the
+        work tree.
     """
     if config is None:
         config = repo.get_config_stack()
@@ -211,45 +225,80 @@ def apply_included_paths(
     index.write()
 
     # 2) Reflect changes in the working tree
+    #
+    # Index paths are not trusted: ``reset --mixed`` and friends copy tree
+    # entry names into the index without validating them, and the work tree
+    # may hold symlinks the index knows nothing about. Apply the same checks
+    # as a checkout (see build_index_from_tree/update_working_tree) so that
+    # nothing is written or removed outside the work tree or inside ``.git``.
+    validate_element = get_path_element_validator(config)
+    honor_filemode = config.get_boolean(b"core", b"filemode", os.name != "nt")
+    repo_path = os.fsencode(repo.path)
     for path_bytes, entry in list(index.items()):
         if not isinstance(entry, IndexEntry):
             continue  # Skip conflicted entries
         full_path = os.path.join(repo.path, path_bytes.decode("utf-8"))
+        full_path_bytes = os.path.join(repo_path, path_bytes)
+        path_ok = validate_path(path_bytes, validate_element)
 
         if entry.skip_worktree:
             # Excluded => remove if safe
-            if os.path.exists(full_path):
-                if not force and local_modifications_exist(full_path, entry):
-                    raise SparseCheckoutConflictError(
-                        f"Local modifications in {full_path} would be overwritten "
-                        "by sparse checkout. Use force=True to override."
-                    )
-                try:
-                    os.remove(full_path)
-                except IsADirectoryError:
-                    pass
-                except FileNotFoundError:
-                    pass
-                except PermissionError:
-                    if not force:
-                        raise
+            if not path_ok:
+                # Such a path is never checked out; there is nothing of ours
+                # to remove.
+                continue
+            try:
+                # A path below a symlinked directory is not in the work tree.
+                _lstat_tracked_path(path_bytes, full_path_bytes, repo_path)
+            except FileNotFoundError:
+                continue
+            if not force and local_modifications_exist(full_path, entry):
+                raise SparseCheckoutConflictError(
+                    f"Local modifications in {full_path} would be overwritten "
+                    "by sparse checkout. Use force=True to override."
+                )
+            try:
+                os.remove(full_path)
+            except IsADirectoryError:
+                pass
+            except FileNotFoundError:
+                pass
+            except PermissionError:
+                if not force:
+                    raise
         else:
             # Included => materialize if missing
-            if not os.path.exists(full_path):
-                try:
-                    blob = repo.object_store[entry.sha]
-                except KeyError:
-                    raise BlobNotFoundError(
-                        f"Blob {entry.sha.hex()} not found for {path_bytes.decode('utf-8')}."
-                    )
-                ensure_dir_exists(os.path.dirname(full_path))
+            if not path_ok:
+                raise InvalidPathError(path_bytes)
+            # Refuse to write through a symlinked leading directory.
+            verify_leading_dirs(path_bytes, [], repo_path)
+            try:
+                # lstat, not exists(): a (dangling) symlink left at the path
+                # is something, and must not be written through.
+                os.lstat(full_path_bytes)
+            except FileNotFoundError:
+                pass
+            else:
+                continue
+            try:
+                blob = repo.object_store[entry.sha]
+            except KeyError:
+                raise BlobNotFoundError(
+                    f"Blob {entry.sha.hex()} not found for {path_bytes.decode('utf-8')}."
+                )
+            ensure_dir_exists(os.path.dirname(full_path))
+            if isinstance(blob, Blob):
                 # Apply checkout normalization if normalizer is available
-                if normalizer and isinstance(blob, Blob):
+                if normalizer:
                     blob = normalizer.checkout_normalize(blob, path_bytes)
-
-                with open(full_path, "wb") as f:
-                    if isinstance(blob, Blob):
-                        f.write(blob.data)
+                # Like a checkout: canonical file mode, symlink entries
+                # become symlinks.
+                build_file_from_blob(
+                    blob, entry.mode, full_path_bytes, honor_filemode=honor_filemode
+                )
+            else:
+                with open(full_path, "wb"):
+                    pass
 
 
 def parse_sparse_patterns(lines: Sequence[str]) -> list[tuple[str, bool, bool, bool]]:
